@@ -130,6 +130,9 @@ def labels():
     for a in PUNCT:
         for b in PUNCT:
             out.append("Q" + a + b + "q")
+    # words that a careless conversion would take for a number or a constant (float("inf"), float("-Infinity"),
+    # float("nan"), eval("True")); in the grammar they are plain labels
+    out += ["inf", "nan", "Infinity", "NaN", "INF", "-inf", "+INF", "-Infinity", "infinity", "True", "False", "None", "e5", "E-3", "-e2", "+.e1"]
     return list(dict.fromkeys(out))
 
 
